@@ -36,6 +36,11 @@ type ConnScript struct {
 	Hard   bool   `json:"hard,omitempty"`
 	What   string `json:"what,omitempty"`
 	SlowUS int    `json:"slow_read_us,omitempty"` // the client pauses this long after every read
+	// Stall: the client writes its calls and then neither reads nor closes until every other connection of the
+	// round has finished (its handler sits in a blocked write meanwhile); judged with the prefix oracle.
+	Stall bool `json:"stall,omitempty"`
+	// WaitFor: start only once the handler of the call with this id has been entered (plus a moment for it to block)
+	WaitFor string `json:"wait_for,omitempty"`
 }
 
 // plan returns the bytes to send, the frame boundaries and the complete frames.
@@ -210,23 +215,42 @@ func c01Round(r *fw.Run, g *Rig, prop string, cc *c01Case, exact bool) int {
 	n := len(cc.Conns)
 	obs := make([]connObs, n)
 	models := make([]*MOut, n)
-	var wg sync.WaitGroup
+	var wg, wgStall sync.WaitGroup
+	release := make(chan struct{})
 	for i, cs := range cc.Conns {
 		data, bounds, frames := cs.plan()
 		models[i] = modelConn(frames, g.Reg)
+		if cs.Stall {
+			wgStall.Add(1)
+			go func(i int, data []byte) {
+				defer wgStall.Done()
+				ex, err := rawStall(g.Net, g.Dial, data, release)
+				obs[i] = connObs{ex, err}
+			}(i, data)
+			continue
+		}
 		seg := segFor(rand.New(rand.NewSource(cs.SegS)), cs.Seg, len(data), bounds)
 		end := endHalfClose
 		if cs.Hard {
 			end = endHardClose
 		}
 		wg.Add(1)
-		go func(i int, data []byte, seg Seg, end int, slow int) {
+		go func(i int, data []byte, seg Seg, end int, slow int, waitFor string) {
 			defer wg.Done()
+			if waitFor != "" {
+				dl := time.Now().Add(10 * time.Second)
+				for !g.Log.hasStart(waitFor) && time.Now().Before(dl) {
+					time.Sleep(200 * time.Microsecond)
+				}
+				time.Sleep(30 * time.Millisecond)
+			}
 			ex, err := rawExchange(g.Net, g.Dial, data, seg, end, 40*time.Second, slow)
 			obs[i] = connObs{ex, err}
-		}(i, data, seg, end, cs.SlowUS)
+		}(i, data, seg, end, cs.SlowUS, cs.WaitFor)
 	}
 	wg.Wait()
+	close(release)
+	wgStall.Wait()
 	if g.tainted {
 		// an earlier round already showed that this service does not release its connections: waiting again proves nothing
 		g.Log.Take()
@@ -276,7 +300,7 @@ func c01Round(r *fw.Run, g *Rig, prop string, cc *c01Case, exact bool) int {
 			}
 			continue
 		}
-		if class, detail := judgeConn(models[i], g.Reg, ex.Got, ex.EOF, byPeer[ex.Local], gmax[ex.Local], exact && !cc.Conns[i].Hard); class != "" {
+		if class, detail := judgeConn(models[i], g.Reg, ex.Got, ex.EOF, byPeer[ex.Local], gmax[ex.Local], exact && !cc.Conns[i].Hard && !cc.Conns[i].Stall); class != "" {
 			report(class, detail, i)
 		}
 		r.Count("frames_compared", int64(len(models[i].Frames)))
@@ -375,6 +399,26 @@ func runC01(r *fw.Run) {
 			}
 			r.Count("rounds", 1)
 			r.Count("connections", int64(nconn))
+		}
+		// a client that stops reading in the middle of a multi-MiB reply keeps its own handler blocked in a write;
+		// every other connection of the service must be served as if it were not there
+		for k := 0; k < r.Pick(4, 30) && !g.tainted && r.ViolationCount() <= 12; k++ {
+			cc := &c01Case{Transport: cf.tr, UseListen: cf.listen, Ifaces: c01Ifaces}
+			tagN++
+			big := &CallScript{ID: fmt.Sprintf("stall%d", tagN), Pad: json.RawMessage(jg.BigString(3 << 20)), Steps: []Step{{Op: "reply", Cont: true}, {Op: "reply"}}}
+			data, _, _ := streamOf([]GenCall{{Method: "org.example.script.Big", Flags: "m", Script: big}}, 0)
+			cc.Conns = append(cc.Conns, &ConnScript{Stream: data, Cut: -1, Stall: true, What: "client stops reading during a 3 MiB reply"})
+			for j := 0; j < 2+rng.Intn(4); j++ {
+				tagN++
+				cs := genConnScript(rng, jg, fmt.Sprintf("c%d", tagN), 5, cf.tr != "tcp")
+				cs.WaitFor = big.ID
+				cc.Conns = append(cc.Conns, cs)
+			}
+			r.Journal(0, cc)
+			c01Round(r, g, "C01", cc, true)
+			r.Done(0)
+			r.Count("rounds_with_a_stalled_reader", 1)
+			r.Case(fw.Hash("stall", fmt.Sprint(ci, k)), true)
 		}
 		if err, ok := g.Stop(); !ok {
 			r.Violation("C01 no-return-after-shutdown", fmt.Sprintf("config %d: serving call did not return within 30 s after Shutdown with no client connected", ci), cfgs[ci].tr)
